@@ -38,6 +38,7 @@ import (
 	"github.com/rpcpool/yellowstone-faithful/tooling"
 	"github.com/rpcpool/yellowstone-faithful/zzverif/vh"
 	"github.com/urfave/cli/v2"
+	"github.com/valyala/fasthttp"
 	"google.golang.org/protobuf/proto"
 )
 
@@ -637,4 +638,62 @@ func vfxCidFromHex(h string) cid.Cid {
 func vfxDefaultSpec(name string, epoch uint64, seed uint64) vfxSpec {
 	return vfxSpec{Name: name, Dir: filepath.Join(vh.OutDir(), "fx-"+name), Epoch: epoch, Seed: seed, NumSlots: 40, FirstRel: 0,
 		SkipPercent: 20, MaxEntries: 3, MaxTx: 3, FrameSize: 0, FanOut: 5, Accounts: 4}
+}
+
+// ---------------------------------------------------------------- JSON-RPC helper
+
+// vfxRPC calls the JSON-RPC handler in-process. panicked=true when the handler panicked (recovered here so
+// that the harness can classify it; in production fasthttp would let the process die).
+func vfxRPC(h func(*fasthttp.RequestCtx), body string) (resp string, status int, panicked bool, panicMsg string) {
+	defer func() {
+		if r := recover(); r != nil {
+			panicked = true
+			panicMsg = fmt.Sprint(r)
+		}
+	}()
+	var req fasthttp.Request
+	req.Header.SetMethod("POST")
+	req.Header.SetContentType("application/json")
+	req.SetBody([]byte(body))
+	var ctx fasthttp.RequestCtx
+	ctx.Init(&req, nil, nil)
+	h(&ctx)
+	return string(ctx.Response.Body()), ctx.Response.StatusCode(), false, ""
+}
+
+type vfxRPCReply struct {
+	Result json.RawMessage `json:"result"`
+	Error  *struct {
+		Code    int    `json:"code"`
+		Message string `json:"message"`
+	} `json:"error"`
+}
+
+func vfxParseReply(s string) (*vfxRPCReply, error) {
+	var r vfxRPCReply
+	if err := json.Unmarshal([]byte(s), &r); err != nil {
+		return nil, err
+	}
+	return &r, nil
+}
+
+// vfxMulti loads the given epochs into a MultiEpoch with one shared cache.
+func vfxMulti(truths []*vfxTruth, concurrency int) (*MultiEpoch, []*Epoch, error) {
+	cache := vfxNewCache()
+	multi := NewMultiEpoch(&Options{EpochSearchConcurrency: concurrency})
+	var eps []*Epoch
+	for _, tr := range truths {
+		if tr.BuildErr != "" {
+			return nil, nil, fmt.Errorf("fixture %s: %s", tr.Spec.Name, tr.BuildErr)
+		}
+		ep, err := vfxLoad(tr, cache)
+		if err != nil {
+			return nil, nil, fmt.Errorf("fixture %s: load: %w", tr.Spec.Name, err)
+		}
+		if err := multi.AddEpoch(tr.Spec.Epoch, ep); err != nil {
+			return nil, nil, err
+		}
+		eps = append(eps, ep)
+	}
+	return multi, eps, nil
 }
